@@ -144,7 +144,7 @@ theorem C01_begin_lists_exactly_the_selected_handlers (w : World) (p : Proc) (b 
   have hm : ∀ (w : World) (x : EId), (markComplete w x).act = w.act := by
     intro w x; unfold markComplete; simp only []; repeat' split
     all_goals simp
-  refine ⟨{ bus := b, ev := e, todo := applicable w1 b e, running := [] }, ?_, rfl, rfl, rfl, rfl⟩
+  refine ⟨{ bus := b, ev := e, todo := applicable w1 b e, running := [], sel := applicable w1 b e }, ?_, rfl, rfl, rfl, rfl⟩
   simp only [apply, apply0, wake_act, peOpen]
   split <;> simp [hm, w1]
 
